@@ -387,8 +387,6 @@ func (w *World) assert(c Bool, label, where string) {
 		// already checked by the path this one was forked from
 		if c.t != nil {
 			w.pc = append(w.pc, c.t)
-		} else if !c.v {
-			panic(pathEnd{"after-violation"})
 		}
 		return
 	}
@@ -400,8 +398,11 @@ func (w *World) assert(c Bool, label, where string) {
 				w.violation("assert", label, where, m)
 			} else if r != "unsat" {
 				w.inconcl = append(w.inconcl, "assert "+label+" failed on a path whose feasibility is unknown: "+r)
+			} else {
+				panic(pathEnd{"infeasible"})
 			}
-			panic(pathEnd{"after-violation"})
+			// keep going: later assertions on this path (possibly owned by another property's label filter) are still evaluated
+			return
 		}
 		w.proved = append(w.proved, label)
 		return
